@@ -4,14 +4,16 @@
 (* direct arithmetic on the array (the meaning the documentation of        *)
 (* expval / var / probs / counts / sample gives to finite-shot results).   *)
 (*                                                                         *)
-(* A sample array X is a sequence of shots; a shot is a sequence of bits,  *)
-(* one per position of the wire order.  A measurement process is a record  *)
+(* A shot is a sequence of nw bits, one per position of the wire order; it *)
+(* is identified with its basis-state index (first wire = most significant *)
+(* bit).  A sample array is the sequence ix of the shots' indices + 1.     *)
+(* A measurement process is a record                                       *)
 (*   kind  : "probs" | "counts" | "expval" | "var" | "sample"              *)
 (*   src   : what is read off a shot                                       *)
 (*     "wires"  the bits at positions sel (<<>> = all wires), in that order *)
 (*     "mvlist" a list of mid-circuit measurement values on positions sel  *)
-(*     "eig"    ev[b], b the basis-state index of the bits at sel (first   *)
-(*              wire = most significant bit), ev a table of rationals      *)
+(*     "eig"    ev[b + 1], b the index of the bits at sel, ev a table of   *)
+(*              rationals (eigenvalues in computational-basis order)       *)
 (*     "obs"    sum_t c_t prod_{w in ws_t} z_w, z = 1 - 2 bit  (a diagonal *)
 (*              observable: linear combination of Pauli-Z words)           *)
 (*     "proj"   1 if the bits at sel equal st, else 0 (basis projector)    *)
@@ -20,9 +22,12 @@
 (*   ao    : all_outcomes (counts)                                         *)
 (* Rationals are normalised pairs <<n, d>> (Rat.tla).                      *)
 (*                                                                         *)
-(* Two independent definitions: from the shots (Result) and from the       *)
-(* dictionary of full-width counts (ResultC); FromSamplesGen checks that   *)
-(* they agree on every enumerated array.                                   *)
+(* Compile tabulates, once per measurement process, the outcome of every   *)
+(* possible shot: the index of the selected bits ("wires" / "mvlist") or   *)
+(* the value ShotVal as an integer numerator over the common denominator   *)
+(* den of the process' values.  Result is then plain integer arithmetic    *)
+(* over the shots; ResultC is the same statistic computed from the         *)
+(* dictionary of full-width counts (what process_counts is given).         *)
 (***************************************************************************)
 EXTENDS Rat, FiniteSets, TLC
 
@@ -52,93 +57,98 @@ ShotVal(mp, row) ==
     [] mp.src = "obs"  -> PolyUpTo(mp.terms, row, TRUE, Len(mp.terms))
     [] mp.src = "mv"   -> PolyUpTo(mp.terms, row, FALSE, Len(mp.terms))
     [] mp.src = "proj" -> IF \A j \in 1..Len(mp.sel) : row[mp.sel[j]] = mp.st[j] THEN ROne ELSE RZero
-\* every value the measurement can take on nw wires (the outcome set of all_outcomes)
-ValueDomain(mp, nw) == {ShotVal(mp, BitsOf(f, nw)) : f \in 0..(Pow2(nw) - 1)}
+
+\* the outcome of every possible shot: tab[f + 1] for the shot with index f
+Compile(mp, nw) ==
+  LET sel == SelOf(mp, nw)
+      rows == TLCEval([f \in 1..Pow2(nw) |-> TLCEval(BitsOf(f - 1, nw))])
+      vals == IF BitKind(mp) THEN <<>> ELSE TLCEval([f \in 1..Pow2(nw) |-> ShotVal(mp, rows[f])])
+      D == IF BitKind(mp) THEN 1 ELSE CommonDen(vals)
+  IN [kind |-> mp.kind, bit |-> BitKind(mp), ao |-> mp.ao, nw |-> nw, sel |-> sel, k |-> Len(sel), den |-> D,
+      tab |-> IF BitKind(mp) THEN [f \in 1..Pow2(nw) |-> Index(rows[f], sel)] ELSE NumsOver(vals, D)]
 
 (* ------------------------------ from the shots ------------------------- *)
-RECURSIVE RSumUpTo(_, _)
-RSumUpTo(v, k) == IF k = 0 THEN RZero ELSE RAdd(RSumUpTo(v, k - 1), v[k])
-Mean(v) == RDiv(RSumUpTo(v, Len(v)), RInt(Len(v)))
-Vals(mp, X) == [i \in 1..Len(X) |-> ShotVal(mp, X[i])]
-Expval(mp, X) == Mean(TLCEval(Vals(mp, X)))
-\* variance = mean squared deviation from the mean (population variance, as numpy.var)
-Variance(mp, X) ==
-  LET v == TLCEval(Vals(mp, X))  m == Mean(v)
-  IN Mean([i \in 1..Len(v) |-> RMul(RSub(v[i], m), RSub(v[i], m))])
-\* the textbook identity, used as a model invariant
-VarianceAlt(mp, X) ==
-  LET v == TLCEval(Vals(mp, X))  m == Mean(v)
-  IN RSub(Mean([i \in 1..Len(v) |-> RMul(v[i], v[i])]), RMul(m, m))
-
-BitCount(X, sel, b) == Cardinality({i \in 1..Len(X) : Index(X[i], sel) = b})
-ProbsVec(X, sel) == [b \in 1..Pow2(Len(sel)) |-> RNorm(BitCount(X, sel, b - 1), Len(X))]
-\* counts as sets of <<outcome index, count>> resp. <<value num, value den, count>>
-BitCounts(X, sel, ao) ==
-  {p \in {<<b, BitCount(X, sel, b)>> : b \in 0..(Pow2(Len(sel)) - 1)} : ao \/ p[2] > 0}
-ValCounts(mp, X, nw) ==
-  LET v == TLCEval(Vals(mp, X))
-      seen == {v[i] : i \in 1..Len(v)}
-      keys == IF mp.ao THEN ValueDomain(mp, nw) \cup seen ELSE seen
-  IN {<<q[1], q[2], Cardinality({i \in 1..Len(v) : v[i] = q})>> : q \in keys}
-BitRows(X, sel) == [i \in 1..Len(X) |-> [j \in 1..Len(sel) |-> X[i][sel[j]]]]
-
-\* the result of measurement process mp on the shots X (nw wires).  counts: a set; everything else a sequence / a rational
-Result(mp, X, nw) ==
-  CASE mp.kind = "probs"  -> ProbsVec(X, SelOf(mp, nw))
-    [] mp.kind = "counts" -> IF BitKind(mp) THEN BitCounts(X, SelOf(mp, nw), mp.ao) ELSE ValCounts(mp, X, nw)
-    [] mp.kind = "expval" -> Expval(mp, X)
-    [] mp.kind = "var"    -> Variance(mp, X)
-    [] mp.kind = "sample" -> IF BitKind(mp) THEN BitRows(X, SelOf(mp, nw)) ELSE Vals(mp, X)
-
-\* shot_range = (lo, hi), Python convention (0-based, half open): shots lo+1 .. hi
-ShotRange(X, lo, hi) == SubSeq(X, lo + 1, hi)
-\* bins of size bs: consecutive shots, or (the other partition into bins of that size an implementation may use) strided
-BinsContig(X, bs) == [b \in 1..(Len(X) \div bs) |-> SubSeq(X, (b - 1) * bs + 1, b * bs)]
-BinsStrided(X, bs) == LET nb == Len(X) \div bs IN [b \in 1..nb |-> [k \in 1..bs |-> X[(k - 1) * nb + b]]]
-
-(* ------------------------------ from the counts dictionary ------------- *)
-\* C[f + 1] = number of shots whose full bit string (all nw wires, wire order) has index f
-FullCounts(X, nw) == [f \in 1..Pow2(nw) |-> BitCount(X, Iota(nw), f - 1)]
 RECURSIVE ISumUpTo(_, _)
 ISumUpTo(c, k) == IF k = 0 THEN 0 ELSE ISumUpTo(c, k - 1) + c[k]
-Total(C) == ISumUpTo(C, Len(C))
-\* weighted mean of g(f) over the dictionary
-RECURSIVE WSumUpTo(_, _, _)
-WSumUpTo(C, g, k) == IF k = 0 THEN RZero ELSE RAdd(WSumUpTo(C, g, k - 1), RMul(RInt(C[k]), g[k]))
-WMean(C, g) == RDiv(WSumUpTo(C, g, Len(C)), RInt(Total(C)))
-MargCount(C, nw, sel, b) ==
-  LET hit == [f \in 1..Len(C) |-> IF Index(BitsOf(f - 1, nw), sel) = b THEN C[f] ELSE 0] IN ISumUpTo(hit, Len(C))
-ValCount(mp, C, nw, q) ==
-  LET hit == [f \in 1..Len(C) |-> IF ShotVal(mp, BitsOf(f - 1, nw)) = q THEN C[f] ELSE 0] IN ISumUpTo(hit, Len(C))
-ResultC(mp, C, nw) ==
-  LET sel == SelOf(mp, nw)
-      g == TLCEval([f \in 1..Len(C) |-> IF BitKind(mp) THEN RZero ELSE ShotVal(mp, BitsOf(f - 1, nw))])
-  IN
-  CASE mp.kind = "probs"  -> [b \in 1..Pow2(Len(sel)) |-> RNorm(MargCount(C, nw, sel, b - 1), Total(C))]
-    [] mp.kind = "counts" ->
-         IF BitKind(mp)
-         THEN {p \in {<<b, MargCount(C, nw, sel, b)>> : b \in 0..(Pow2(Len(sel)) - 1)} : mp.ao \/ p[2] > 0}
-         ELSE LET seen == {g[f] : f \in {h \in 1..Len(C) : C[h] > 0}}
-                  keys == IF mp.ao THEN ValueDomain(mp, nw) \cup seen ELSE seen
-              IN {<<q[1], q[2], ValCount(mp, C, nw, q)>> : q \in keys}
-    [] mp.kind = "expval" -> WMean(C, g)
-    [] mp.kind = "var"    -> LET m == WMean(C, g) IN WMean(C, [f \in 1..Len(C) |-> RMul(RSub(g[f], m), RSub(g[f], m))])
+ISum(c) == ISumUpTo(c, Len(c))
+Outcomes(cm, ix) == [i \in 1..Len(ix) |-> cm.tab[ix[i]]]
+Times(out, v) == Cardinality({i \in 1..Len(out) : out[i] = v})
+KeyCount(n, D, c) == LET q == RNorm(n, D) IN <<q[1], q[2], c>>
+
+\* out = Outcomes(cm, ix), an explicit sequence
+Probs(cm, out) == [b \in 1..Pow2(cm.k) |-> RNorm(Times(out, b - 1), Len(out))]
+Counts(cm, out) ==
+  IF cm.bit THEN {p \in {<<b, Times(out, b)>> : b \in 0..(Pow2(cm.k) - 1)} : cm.ao \/ p[2] > 0}
+  ELSE LET seen == {out[i] : i \in 1..Len(out)}
+           keys == IF cm.ao THEN seen \cup {cm.tab[f] : f \in 1..Len(cm.tab)} ELSE seen
+       IN {KeyCount(n, cm.den, Times(out, n)) : n \in keys}
+Expval(cm, out) == RNorm(ISum(out), cm.den * Len(out))
+\* variance = mean squared deviation from the mean (population variance): with v_i = n_i / D and mean T / (D N),
+\* sum_i (v_i - mean)^2 / N = sum_i (N n_i - T)^2 / (D^2 N^3)
+Variance(cm, out) ==
+  LET N == Len(out)  T == ISum(out)
+      dev == [i \in 1..N |-> (N * out[i] - T) * (N * out[i] - T)]
+  IN RNorm(ISum(dev), cm.den * cm.den * N * N * N)
+\* the textbook identity E[x^2] - E[x]^2 = (N sum n_i^2 - T^2) / (D^2 N^2), used as a law
+VarianceAlt(cm, out) ==
+  LET N == Len(out)  T == ISum(out)
+  IN RNorm(N * ISum([i \in 1..N |-> out[i] * out[i]]) - T * T, cm.den * cm.den * N * N)
+Samples(cm, ix, out) ==
+  IF cm.bit THEN [i \in 1..Len(ix) |-> LET row == BitsOf(ix[i] - 1, cm.nw) IN [j \in 1..cm.k |-> row[cm.sel[j]]]]
+  ELSE [i \in 1..Len(out) |-> RNorm(out[i], cm.den)]
+
+\* the result of the compiled measurement process cm on the shots ix.  counts: a set of <<outcome index, count>> resp.
+\* <<value num, value den, count>>; probs / sample: a sequence; expval / var: a rational
+Result(cm, ix) ==
+  LET out == TLCEval(Outcomes(cm, ix)) IN
+  CASE cm.kind = "probs"  -> Probs(cm, out)
+    [] cm.kind = "counts" -> Counts(cm, out)
+    [] cm.kind = "expval" -> Expval(cm, out)
+    [] cm.kind = "var"    -> Variance(cm, out)
+    [] cm.kind = "sample" -> Samples(cm, ix, out)
+
+\* shots given as bit rows -> indices + 1
+IndicesOf(X, nw) == [i \in 1..Len(X) |-> Index(X[i], Iota(nw)) + 1]
+\* shot_range = (lo, hi), Python convention (0-based, half open): shots lo+1 .. hi
+ShotRange(ix, lo, hi) == SubSeq(ix, lo + 1, hi)
+\* bins of size bs: consecutive shots, or (the other partition into bins of that size an implementation may use) strided
+BinsContig(ix, bs) == [b \in 1..(Len(ix) \div bs) |-> SubSeq(ix, (b - 1) * bs + 1, b * bs)]
+BinsStrided(ix, bs) == LET nb == Len(ix) \div bs IN [b \in 1..nb |-> [k \in 1..bs |-> ix[(k - 1) * nb + b]]]
+
+(* ------------------------------ from the counts dictionary ------------- *)
+\* C[f] = number of shots with index f - 1 (full width, wire order)
+FullCounts(ix, nw) == [f \in 1..Pow2(nw) |-> Cardinality({i \in 1..Len(ix) : ix[i] = f})]
+\* number of shots whose outcome is v
+Weight(cm, C, v) == ISum([f \in 1..Len(C) |-> IF cm.tab[f] = v THEN C[f] ELSE 0])
+ResultC(cm, C) ==
+  LET N == ISum(C) IN
+  CASE cm.kind = "probs"  -> [b \in 1..Pow2(cm.k) |-> RNorm(Weight(cm, C, b - 1), N)]
+    [] cm.kind = "counts" ->
+         IF cm.bit THEN {p \in {<<b, Weight(cm, C, b)>> : b \in 0..(Pow2(cm.k) - 1)} : cm.ao \/ p[2] > 0}
+         ELSE LET seen == {cm.tab[f] : f \in {h \in 1..Len(C) : C[h] > 0}}
+                  keys == IF cm.ao THEN seen \cup {cm.tab[f] : f \in 1..Len(cm.tab)} ELSE seen
+              IN {KeyCount(n, cm.den, Weight(cm, C, n)) : n \in keys}
+    [] cm.kind = "expval" -> RNorm(ISum([f \in 1..Len(C) |-> C[f] * cm.tab[f]]), cm.den * N)
+    [] cm.kind = "var"    ->
+         LET T == ISum([f \in 1..Len(C) |-> C[f] * cm.tab[f]])
+         IN RNorm(ISum([f \in 1..Len(C) |-> C[f] * (N * cm.tab[f] - T) * (N * cm.tab[f] - T)]), cm.den * cm.den * N * N * N)
 
 (* ------------------------------ laws of the specification -------------- *)
 RECURSIVE SumLast(_)
 SumLast(T) == IF T = {} THEN 0 ELSE LET p == CHOOSE q \in T : TRUE IN p[Len(p)] + SumLast(T \ {p})
-Laws(mp, X, nw) ==
-  LET r == TLCEval(Result(mp, X, nw)) IN
-  CASE mp.kind = "probs"  -> /\ RSumUpTo(r, Len(r)) = ROne
-                             /\ r = ResultC(mp, FullCounts(X, nw), nw)
-    [] mp.kind = "counts" -> /\ SumLast(r) = Len(X)
-                             /\ r = ResultC(mp, FullCounts(X, nw), nw)
-                             /\ LET obs == {p \in r : p[Len(p)] > 0} IN
-                                  obs = Result([mp EXCEPT !.ao = FALSE], X, nw)
-    [] mp.kind = "expval" -> r = ResultC(mp, FullCounts(X, nw), nw)
-    [] mp.kind = "var"    -> /\ r = ResultC(mp, FullCounts(X, nw), nw)
-                             /\ r = VarianceAlt(mp, X)
+RECURSIVE RSumUpTo(_, _)
+RSumUpTo(v, k) == IF k = 0 THEN RZero ELSE RAdd(RSumUpTo(v, k - 1), v[k])
+\* r = Result(cm, ix), C = FullCounts(ix, cm.nw)
+Laws(cm, ix, r, C) ==
+  CASE cm.kind = "probs"  -> /\ RSumUpTo(r, Len(r)) = ROne
+                             /\ r = ResultC(cm, C)
+    [] cm.kind = "counts" -> /\ SumLast(r) = Len(ix)
+                             /\ r = ResultC(cm, C)
+                             /\ {p \in r : p[Len(p)] > 0} = Result([cm EXCEPT !.ao = FALSE], ix)
+    [] cm.kind = "expval" -> r = ResultC(cm, C)
+    [] cm.kind = "var"    -> /\ r = ResultC(cm, C)
+                             /\ r = VarianceAlt(cm, TLCEval(Outcomes(cm, ix)))
                              /\ r[1] >= 0
-                             /\ (r[1] = 0) = (\A i \in 1..Len(X) : ShotVal(mp, X[i]) = ShotVal(mp, X[1]))
-    [] mp.kind = "sample" -> Len(r) = Len(X)
+                             /\ (r[1] = 0) = (\A i \in 1..Len(ix) : cm.tab[ix[i]] = cm.tab[ix[1]])
+    [] cm.kind = "sample" -> Len(r) = Len(ix)
 =============================================================================
